@@ -111,6 +111,7 @@ func recacheAggregatorContext(ctx sdk.Context, agc *aggregator.AggregatorContext
 		setCommonParams(p)
 	} else {
 		prev := int64(0)
+		replayNonces := make(map[string]int32)
 		for ; from < to; from++ {
 			// fill params
 			for b, p = range recentParamsMap {
@@ -127,12 +128,18 @@ func recacheAggregatorContext(ctx sdk.Context, agc *aggregator.AggregatorContext
 
 			if msgs := recentMsgs[from]; msgs != nil {
 				for _, msg := range msgs {
+					// the stored item does not carry the nonce of the message. give every replayed
+					// message of a validator and feeder a distinct one: with the zero value the
+					// filter treats all but the first as duplicates and drops their prices.
+					nonceKey := msg.Validator + "/" + strconv.FormatUint(msg.FeederID, 10)
+					replayNonces[nonceKey]++
 					// these messages are retreived for recache, just skip the validation check and fill the memory cache
 					//nolint
 					agc.FillPrice(&types.MsgCreatePrice{
 						Creator:  msg.Validator,
 						FeederID: msg.FeederID,
 						Prices:   msg.PSources,
+						Nonce:    replayNonces[nonceKey],
 					})
 				}
 			}
